@@ -121,3 +121,22 @@ Example C04_cargo_renamed_refuted :
   cargo_known d = true /\ declared_cargo d = [([98], [49])].
 Proof. vm_compute. repeat split. Qed.
 Print Assumptions C04_cargo_toml.
+
+(* pyproject.toml: for every document whose tree denotes a TOML document d (plain spellings; literal strings allowed),
+   outside the known class (a dependency section reached through dotted keys or written as an inline table), the walk
+   reports exactly the requirements of project.dependencies, project.optional-dependencies.<group> and
+   build-system.requires, each read by the PEP 508 oracle [pep508] (pep508_rs; any function that does not panic - its
+   panics are finding C06-pep508-panic-on-malformed-requirement) *)
+From VL Require Import Proofs.PyWalkProofs.
+Theorem C04_pyproject :
+  forall (pep508 : bytes -> pep), (forall s, pep508 s <> PepPanic) ->
+  forall content root d,
+  denote_toml content root = Some d -> plain_pyproject content root = true -> pyproject_known d = false ->
+  exists pkgs, walk_pyproject pep508 content root = Some pkgs
+               /\ map TomlWalkProofs.nv pkgs = declared_pyproject (preq pep508) d.
+Proof. exact pyproject_exact. Qed.
+Theorem C04_pyproject_tables_documented :
+  map (fun r : bytes * bytes => (split_on 46 (fst r), snd r)) pyproject_tables
+  = [([w_project], w_dependencies); ([w_build_system], w_requires); ([w_project; w_optional_dependencies], [])].
+Proof. exact py_tables_documented. Qed.
+Print Assumptions C04_pyproject.
